@@ -40,6 +40,83 @@ SEEDS = {
  "C18-2": ("final symbol resolution iterates over set(self.symbols)", "two or more unused symbols producing diagnostics; PYTHONHASHSEED changes their order / the abort point"),
  "C19-1": ("listing sort key without the name tie-break", "two symbols with equal values defined in non-alphabetical order"),
  "C19-2": ("listing name via os.path.splitext", "output whose extension differs from its format name (-o prog.dat, make_raw \"img.bin\")"),
+ # ---- round 2 (sub-agents told which mechanisms were already taken) ----
+ "C01-3": ("hoist() result dropped for the right operand (token.rhs = hoist(token.rhs) -> hoist(token.rhs))", "index operand whose offset nests on the right: 'tbl+2*3(r1)', 'tbl!2+4(r2)': register lost, assembled PC-relative"),
+ "C01-4": ("per-compiler cache of one-word instructions keyed by mnemonic + operand text", "inline field (trap/emt/spl/mark) written with '.' or a symbol, the same spelling again at another address or in another file"),
+ "C02-3": (".repeat stride taken from the first copy only", "count >= 3 and a body whose size depends on the address it starts at (.even/.odd at the front of an odd-sized body)"),
+ "C02-4": ("per-compiler cache of parsed include files", "the same file included twice with / % << >> on addresses or operand trees that are rewritten while encoding"),
+ "C03-3": ("all_files_compiled set when the last file STARTS compiling", "name exported by an earlier file and defined privately in the last file after its use"),
+ "C03-4": ("'. = X' skip closure reads the loop variables at evaluation time", "forward skip whose target is defined later and that is not the last statement of its block"),
+ "C04-3": ("constant term of a substituted polynomial not scaled (LinearPolynomial._wait)", "PC-relative reference from inside an included file to a symbol of the includer, include not at offset 0, base not yet known"),
+ "C04-4": ("local label of 'br 12+2' built from str(token.value) (octal reading) instead of the spelling", "compound branch operand whose first number is a local label >= 10"),
+ "C05-3": ("operator-stack reduction uses 'if' instead of 'while'", "chains of three or more infix operators of falling precedence"),
+ "C05-4": ("sign dropped on '-^X..' literals", "negative radix-prefixed literal inside an expression"),
+ "C06-3": ("size hint for .ascii/.asciz counts characters", "utf-8 output + non-ASCII text + a <n> chunk whose value is defined further down + something parity-dependent after it"),
+ "C06-4": ("string encoder cached per process without the charset", "two assemblies with different output charsets in one process"),
+ "C07-3": ("FilterHandler memoises 'shown?' per identifier regardless of severity", "identifier used both as warning and as error (implicit-accumulator, excess-hash), hidden warning first: exit 1 with nothing printed"),
+ "C07-4": ("final resolve-all-symbols loop removed, listing generation wrapped in handle_reports", "unused symbol with an undefined/forward-faulty definition + --lst + any output: error after the outputs were written (exit 0 without --lst)"),
+ "C08-3": ("FilterHandler consults the -W table before the severity", "'-Wno-<identifier of an error>': exit 1 and no diagnostic at all"),
+ "C08-4": ("block-not-taken guard no longer recognises directive names spelled without their dot", "'word 1, 2 { nop }': AttributeError on CodeBlock"),
+ "C09-3": ("first copy of a .repeat body compiled from the parsed tokens (no deepcopy)", "indexed operand with an expression before the register inside .repeat, count >= 2"),
+ "C09-4": ("binding to another file's exported constant is not postponed when its value is final", "exported constant in an earlier file, same-named label defined after its use in a later file"),
+ "C10-3": ("implicit word lists no longer copied per .repeat copy", "implicit word list (not '.word') with / % << >> on '.' inside .repeat"),
+ "C10-4": ("'if register is not None' -> 'if register' in the legacy '@rN' branch", "'@r0' (register 0 only) rejected while '(r0)' assembles"),
+ "C11-3": ("local labels appended to the list '.extern all' walks", "'.extern all' AFTER local labels and the same local name in two scopes"),
+ "C11-4": ("memo of resolved exports keyed by the bare name", "three units: exporter, a user without own definition linked first, and a shadowing file with a forward reference"),
+ "C12-3": ("Promise.get_current_best_estimate substitutes the pending link deferred for the bare promise", "'.link' with a forward reference whose expression ADDS the label at offset 0 (K + start - end)"),
+ "C12-4": ("literal operand of .link / leading '. =' taken as value % 2**16 without get_as_int", "'.link 200000', '. = -200000', '.link 1008'"),
+ "C13-3": ("WAV encoding cached per format", "two outputs of the same WAV format with different tape names in one build"),
+ "C13-4": ("'-o' ignored when '--implicit-bin' is also given", "'-o X --implicit-bin' without make_* directives"),
+ "C14-3": ("str.translate + latin-1 fast path in the bk codec", "U+00A0-U+00FF in bk text: assembled as the latin-1 byte"),
+ "C14-4": ("module-level encoded-text cache without the charset", "the same text assembled for another charset earlier in the process"),
+ "C15-3": (".rad50 chunk conversion cached by chunk source text per compiler", "two <n> chunks with identical text and different values (file-private symbol, '.'-relative)"),
+ "C15-4": ("one-character ^R literal padded with one space instead of two", "'^RA'"),
+ "C16-3": (".repeat stride from the first copy only", "n >= 3 with an address-dependent body size"),
+ "C16-4": ("include paths no longer normalised", "'.once' file included as 'x.mac' and './x.mac'"),
+ "C17-3": ("line/column computed with str.splitlines", "FF, VT, FS/GS/RS, NEL, U+2028/2029 before the fault"),
+ "C17-4": ("start of a nested prefix operator recorded as the start of the whole expression", "'#@x', '#%1', '@#5' where the diagnostic belongs to the inner operator"),
+ "C18-3": ("try_compute.depth not restored after a non-NotReady exception", "an earlier assembly with '.blkb -1' style error in an unsized directive"),
+ "C18-4": ("module-level cache of parsed include files", "an earlier assembly in the same process included the same path at another address"),
+ "C19-3": ("listing value formatted with f'{value:06o}'", "negative constant with fewer than six octal digits"),
+ "C19-4": ("mangled-name regex accepts a one-digit unit number only", "ten or more compilation units (files + includes)"),
+}
+
+# seeds the owning check missed at first, and what was added to the check (never to the property) until it caught them
+STRENGTHENED = {
+ "C01-2": "C01: branch/sob targets just outside the displacement field (whatever is accepted must decode to the written target)",
+ "C02-1": "tight generator: data directives without operands",
+ "C05-1": "tight/C05: aliases (constants whose value is an address, defined before the label) used with coefficients other than +1",
+ "C07-1": "C07: files without a final newline, warning-only statement on the last line",
+ "C07-2": "C07: dotted symbol names in hosts with --lst",
+ "C09-1": "C09: PIC programs that cross 0o177777",
+ "C09-2": "tight: aliases; .link not first",
+ "C11-1": "C11: local labels referenced across unit boundaries (head of a later unit)",
+ "C11-2": "C11: '.extern NAME' + include exporting NAME + own definition",
+ "C12-1": "C12: alias coefficients in link expressions",
+ "C14-2": "C14: DEL and other unencodable characters as character literals",
+ "C16-1": "C16: implicit word lists with non-linear operators on '.' in repeat bodies",
+ "C19-2": "C19: exact listing-name rule for every output extension",
+ "C17-3": "C17/gen: FF, VT, FS, NEL, U+2028/2029 in decoration lines before the fault",
+ "C17-4": "faults: nested prefix operator kinds (#@x, #%n, @#n in data, - #n)",
+ "C19-4": "C19: 8-14 included units in a quarter of the programs",
+ "C01-3": "C01: extension values spelled as right-nested expressions (k + b*c, k ! m+n, sym + a*(8>>3))",
+ "C01-4": "C01: the same spelling of a location-dependent inline field (trap ./2&377) at many addresses",
+ "C04-3": "C04: family (C) branches/relative operands across an include; base stated last or not at all",
+ "C04-4": "C04: realisation 'localarith' (br 12+4 with numeric local labels >= 10)",
+ "C06-3": "C06: <n> chunk codes given by constants defined further down",
+ "C07-3": "C07: dual-severity identifiers, hidden warning first, -W selections that hide it",
+ "C07-4": "faults: unused symbols with undefined / forward-faulty definitions (with --lst selectors)",
+ "C08-3": "C08: random -W tables (incl. error identifiers switched off) in front of the real handlers; failure needs an error PAST the filter",
+ "C08-4": "gen: directive names without their dot, code blocks after statements that take none",
+ "C10-3": "tight: word lists with copy-dependent values in repeat bodies",
+ "C15-3": "C15: the same .rad50 text in several contexts (file-private symbol, '.'-relative, late constant)",
+ "C02-4": "tight: the same file included twice; non-linear operators on addresses",
+ "C09-4": "tight: exported names shadowed by a later private definition in another file (label or constant, exported constant)",
+ "C12-4": "C12: literal bases of every spelling, in and out of range, at the three sites",
+ "C13-4": "C13: selector '-o X --implicit-bin'",
+ "C14-4": "C14: the bk assembly preceded by the same text under another charset in the same process",
+ "C16-4": "C16: '.once' file included under different spellings of its path",
+ "C18-4": "C18: context-sensitive include file shared by history and probes at different addresses",
 }
 root = os.path.join(os.path.dirname(os.path.dirname(os.path.abspath(__file__))), "seeded")
 rows = []
@@ -50,9 +127,12 @@ for d in sorted(os.listdir(root)):
     m = json.load(open(mp))
     if d in SEEDS:
         m["what"], m["needs_to_manifest"] = SEEDS[d]
+    if d in STRENGTHENED:
+        m["missed_at_first_then_added"] = STRENGTHENED[d]
+    if d in SEEDS or d in STRENGTHENED:
         json.dump(m, open(mp, "w"), indent=1)
-    rows.append((d, m.get("what", ""), m.get("needs_to_manifest", ""), ", ".join(m.get("caught_by", [])) or "-"))
+    rows.append((d, m.get("what", ""), m.get("needs_to_manifest", ""), ", ".join(m.get("caught_by", [])) or "-", STRENGTHENED.get(d, "")))
 if "--table" in sys.argv:
-    print("| seed | change | needs | caught by |\n|---|---|---|---|")
+    print("| seed | change | needs | caught by | missed at first; added |\n|---|---|---|---|---|")
     for r in rows:
         print("| " + " | ".join(x.replace("|", "/") for x in r) + " |")
